@@ -35,13 +35,30 @@ Definition get_pinv2 (h : poly2) : poly2 :=
   else h.
 
 Definition key4 := (Z * Z * Z * Z)%type.   (* (knots_x, knots_z, degree_x, degree_z) *)
+Definition akey := (Z * Z)%type.           (* one axis: (knots, degree) *)
 Definition key4_eqb (a b : key4) : bool :=
   let '(a1, a2, a3, a4) := a in let '(b1, b2, b3, b4) := b in
   (a1 =? b1) && (a2 =? b2) && (a3 =? b3) && (a4 =? b4).
 
+(* SplineBasis2D has three levels: the attributes num_knots / spline_degree (what same_basis compares), the
+   per-axis bases basis_r / basis_c (what each was computed for), and the lazily created full basis `_basis`
+   (None until first read through the `basis` property, then kron of the per-axis bases it was built from) *)
+Record spl2 := { b_key : key4; b_r : akey; b_c : akey; b_full : option (akey * akey) }.
+
+Definition spl2_new (k : key4) : spl2 :=
+  let '(k1, k2, d1, d2) := k in {| b_key := k; b_r := (k1, d1); b_c := (k2, d2); b_full := None |}.
+
+(* the `basis` property *)
+Definition get_full (b : spl2) : spl2 :=
+  match b_full b with
+  | None => {| b_key := b_key b; b_r := b_r b; b_c := b_c b; b_full := Some (b_r b, b_c b) |}
+  | Some _ => b
+  end.
+
 Inductive setup2 :=
 | SPoly2 (w : option (Z * Z)) (px pz : Z) (mc : option Z) (cv cp : bool)
-| SSpline2 (w : option (Z * Z)) (k : key4) (mk : bool) (dox doz : Z)
+| SSpline2 (w : option (Z * Z)) (k : key4) (mk : bool) (dox doz : Z) (full : bool)
+    (* full: the body then reads the lazy full basis (pspline.basis.basis; only pspline_iasls) *)
 | SRaise2.
 
 Record call2 := { d_data : option (Z * Z);   (* None: data=None; Some (rows, cols) *)
@@ -50,12 +67,12 @@ Record call2 := { d_data : option (Z * Z);   (* None: data=None; Some (rows, col
 
 Inductive op2 := Call2 (c : call2) | SetSolver2 (v : Z).
 
-Inductive read2 := RVander2 (k : key2) | RPinv2 (k : key2) | RBasis2 (k : key4).
+Inductive read2 := RVander2 (k : key2) | RPinv2 (k : key2) | RBasis2 (r c : akey) | RFull2 (f : akey * akey).
 
 (* an axis (x or z): its length and whether it was created lazily *)
 Record st2 := { t_x : option Z; t_z : option Z;
                 t_vx : bool; t_vz : bool;        (* _validated_x / _validated_z: set once in __init__ *)
-                t_poly : option poly2; t_spline : option key4;
+                t_poly : option poly2; t_spline : option spl2;
                 t_solver : Z }.
 
 Definition init2 (x z : option Z) : st2 :=
@@ -67,8 +84,8 @@ Definition upd2_axes (s : st2) (x z : Z) : st2 :=
 Definition upd2_poly (s : st2) (h : poly2) : st2 :=
   {| t_x := t_x s; t_z := t_z s; t_vx := t_vx s; t_vz := t_vz s; t_poly := Some h; t_spline := t_spline s;
      t_solver := t_solver s |}.
-Definition upd2_spline (s : st2) (k : key4) : st2 :=
-  {| t_x := t_x s; t_z := t_z s; t_vx := t_vx s; t_vz := t_vz s; t_poly := t_poly s; t_spline := Some k;
+Definition upd2_spline (s : st2) (b : spl2) : st2 :=
+  {| t_x := t_x s; t_z := t_z s; t_vx := t_vx s; t_vz := t_vz s; t_poly := t_poly s; t_spline := Some b;
      t_solver := t_solver s |}.
 Definition upd2_solver (s : st2) (v : Z) : st2 :=
   {| t_x := t_x s; t_z := t_z s; t_vx := t_vx s; t_vz := t_vz s; t_poly := t_poly s; t_spline := t_spline s;
@@ -84,8 +101,10 @@ Definition wok2 (s : st2) (w : option (Z * Z)) : bool :=
 Definition key4_valid (k : key4) : bool :=
   let '(k1, k2, d1, d2) := k in (2 <=? k1) && (2 <=? k2) && (0 <=? d1) && (0 <=? d2).
 
-Definition same_basis2 (cur : option key4) (k : key4) : bool :=
-  match cur with Some k0 => key4_eqb k k0 | None => false end.
+Definition same_basis2 (cur : option spl2) (k : key4) : bool :=
+  match cur with Some b => key4_eqb k (b_key b) | None => false end.
+
+Definition nbases (a : akey) : Z := fst a + snd a - 1.
 
 Definition do_setup2 (s : st2) (u : setup2) : st2 * list read2 * option err :=
   match u with
@@ -109,18 +128,23 @@ Definition do_setup2 (s : st2) (u : setup2) : st2 * list read2 * option err :=
                     match q_pinv h' with Some e => [RVander2 (q_vand h'); RPinv2 e] | None => [RVander2 (q_vand h')] end,
                     None)
           end
-  | SSpline2 w k mk dox doz =>
+  | SSpline2 w k mk dox doz full =>
       if negb (wok2 s w) then (s, [], Some EWeights)
       else if (dox <? 1) || (doz <? 1) then (s, [], Some EParam)
       else if negb mk then (s, [], None)
       else if negb (same_basis2 (t_spline s) k) && negb (key4_valid k) then (s, [], Some ESplineBasis)
       else
-        let s1 := if same_basis2 (t_spline s) k then s else upd2_spline s k in
+        let s1 := if same_basis2 (t_spline s) k then s else upd2_spline s (spl2_new k) in
         match t_spline s1 with
         | None => (s1, [], Some ESplineBasis)
-        | Some (k1, k2, d1, d2) =>
-            if (k1 + d1 - 1 <=? dox) || (k2 + d2 - 1 <=? doz) then (s1, [RBasis2 (k1, k2, d1, d2)], Some EPSpline)
-            else (s1, [RBasis2 (k1, k2, d1, d2)], None)
+        | Some b =>
+            (* PSpline2D: _num_bases comes from the per-axis bases *)
+            if (nbases (b_r b) <=? dox) || (nbases (b_c b) <=? doz) then (s1, [RBasis2 (b_r b) (b_c b)], Some EPSpline)
+            else if full then
+              let b' := get_full b in
+              (upd2_spline s1 b',
+               RBasis2 (b_r b) (b_c b) :: match b_full b' with Some f => [RFull2 f] | None => [] end, None)
+            else (s1, [RBasis2 (b_r b) (b_c b)], None)
         end
   | SRaise2 => (s, [], Some EBody)
   end.
@@ -177,7 +201,8 @@ Definition zeroed (k : key2) : Z :=
 
 (* [x is None; z is None; shape0; shape1; _size; _validated_x; _validated_z; has _polynomial; order_x; order_z;
     max_cross (-1 None); vandermonde columns; all-zero columns of the vandermonde; pinv_stale;
-    _pseudo_inverse is None; rows of _pseudo_inverse; has basis; kx; kz; dx; dz; _banded_solver] *)
+    _pseudo_inverse is None; rows of _pseudo_inverse; has basis; kx; kz; dx; dz; columns of basis_r; columns of basis_c;
+    _basis is None; columns of _basis; _basis == kron(basis_r, basis_c) of the CURRENT per-axis bases; _banded_solver] *)
 Definition oz (o : option Z) : Z := match o with Some v => v | None => -1 end.
 Definition observe2 (s : st2) : list Z :=
   [ b2z (is_none (t_x s)); b2z (is_none (t_z s)); oz (t_x s); oz (t_z s);
@@ -189,7 +214,15 @@ Definition observe2 (s : st2) : list Z :=
                   b2z (is_none (q_pinv h));
                   match q_pinv h with Some (px, pz, _) => (px + 1) * (pz + 1) | None => -1 end]
      end
-  ++ match t_spline s with None => [0; -1; -1; -1; -1] | Some (k1, k2, d1, d2) => [1; k1; k2; d1; d2] end
+  ++ match t_spline s with
+     | None => [0; -1; -1; -1; -1; -1; -1; 1; -1; -1]
+     | Some b => let '(k1, k2, d1, d2) := b_key b in
+                 [1; k1; k2; d1; d2; nbases (b_r b); nbases (b_c b); b2z (is_none (b_full b));
+                  match b_full b with Some (r, c) => nbases r * nbases c | None => -1 end;
+                  match b_full b with
+                  | Some (r, c) => b2z ((fst r =? fst (b_r b)) && (snd r =? snd (b_r b)) && (fst c =? fst (b_c b)) && (snd c =? snd (b_c b)))
+                  | None => -1 end]
+     end
   ++ [ t_solver s ].
 
 Fixpoint trace2 (s : st2) (ops : list op2) : list (list Z) :=
